@@ -46,6 +46,23 @@ Theorem C20_text_canon_idempotent : forall d, text_canon (text_canon d) = text_c
 Proof. exact text_canon_idem. Qed.
 Print Assumptions C20_text_canon_idempotent.
 
+(* canonical text form: the canonicalised text has a carriage return before every line feed, and a text that already has
+   it is hashed unchanged -- binary and text signatures over a CR LF document hash the same octets *)
+Theorem C20_text_canon_canonical : forall d, canonical_text (text_canon d) = true.
+Proof. exact text_canon_canonical. Qed.
+Print Assumptions C20_text_canon_canonical.
+
+Theorem C20_text_canon_fixed : forall d, canonical_text d = true -> text_canon d = d.
+Proof. exact text_canon_fixed. Qed.
+Print Assumptions C20_text_canon_fixed.
+
+(* version 3 document signatures (read, never written by the library): data, type and creation time are bound *)
+Theorem C20_sig_hash_input_inj_v3 : forall d1 d2 ty1 ty2 t1 t2, t1 < 4294967296 -> t2 < 4294967296 ->
+  hash_input_v3 (SoBinary d1) (sig_trailer_v3 ty1 t1) = hash_input_v3 (SoBinary d2) (sig_trailer_v3 ty2 t2) ->
+  d1 = d2 /\ ty1 = ty2 /\ t1 = t2.
+Proof. exact hash_input_v3_doc_inj. Qed.
+Print Assumptions C20_sig_hash_input_inj_v3.
+
 (* validity: exactly "not expired, not older than its key, not dated more than 25 h ahead, strong hash" *)
 Theorem C20_validity_rules_iff : forall current creation expiration keycreation h,
   check_validity current creation expiration keycreation h = Valid <->
@@ -128,4 +145,9 @@ Example C20_example_sig_fields :
   let body := [4; 19; 19; 8; 0; 18; 5; 2; 0; 0; 1; 0; 5; 3; 0; 0; 0; 7; 5; 9; 0; 0; 0; 9; 170; 187] in
   option_map (fun f => (sf_created f, sf_sigexp f, sf_keyexp f)) (sig_body_fields true body) = Some (256, 7, 9) /\
   option_map (fun f => (sf_created f, sf_sigexp f, sf_keyexp f)) (sig_body_fields false body) = Some (256, 7, 0).
+Proof. vm_compute. split; reflexivity. Qed.
+
+Example C20_example_verify_input :
+  verify_hash_input 5 0 17 8 [] 7 v5_meta_detached false [97] = Some [97; 5; 0; 17; 8; 0; 0; 0; 0; 0; 0; 0; 0; 5; 255; 0; 0; 0; 0; 0; 0; 0; 12]
+  /\ verify_hash_input 3 1 17 8 [] 7 [] true [10] = Some [13; 10; 1; 0; 0; 0; 7].
 Proof. vm_compute. split; reflexivity. Qed.
